@@ -517,8 +517,10 @@ func processLogEventLimits(app *App) {
 	log.Debugf("handling log limits: agent_report_period = %f collector_report_period = %f", agentReportPeriod, collectorReportPeriod)
 	log.Debugf("handling log limits: agent_log_limit = %d collectorLogLimit = %d", agentLogLimit, collectorLogLimit)
 
+	// A negative agent limit (an out-of-range value sent by the agent, or an
+	// overflow in the conversion above) is ignored, as NewHarvestLimits does.
 	finalLogLimit := collectorLogLimit
-	if agentLogLimit < collectorLogLimit {
+	if agentLogLimit >= 0 && agentLogLimit < collectorLogLimit {
 		finalLogLimit = agentLogLimit
 		log.Debugf("handling log limits: agent_log_limit = %d selected over collectorLogLimit = %d", agentLogLimit, collectorLogLimit)
 	}
